@@ -630,9 +630,16 @@ Lemma pp_pathref : forall m n ss, pp (EPathRef m n ss) = tname m n ++ tsteps ss.
 Proof. intros. unfold pp. cbn [pp_items]. tk. reflexivity. Qed.
 Lemma pp_partial : forall ss, pp (EPathPartial ss) = tsteps ss.
 Proof. reflexivity. Qed.
-Lemma pp_pathexpr : forall h ss,
+Lemma head_bare_p_wf : forall h, wf h = true -> head_bare_p h = head_bare h.
+Proof.
+  intros h Hwf. unfold head_bare_p. destruct h as [| | | | | | | | | | | | | | | |x els]; try (cbn [skip_empty empty_over_path]; apply orb_false_r).
+  destruct els as [|el els].
+  - cbn [wf] in Hwf. apply andb_prop in Hwf as [Hwf _]. apply andb_prop in Hwf as [_ Hne]. discriminate.
+  - cbn [skip_empty empty_over_path]. apply orb_false_r.
+Qed.
+Lemma pp_pathexpr : forall h ss, wf h = true ->
   pp (EPathExpr h ss) = (if head_bare h then pp h else TSym S_LPAREN :: pp h ++ [TSym S_RPAREN]) ++ tsteps ss.
-Proof. intros. unfold pp. cbn [pp_items]. destruct (head_bare h); tk; reflexivity. Qed.
+Proof. intros h ss Hwf. unfold pp. cbn [pp_items]. rewrite (head_bare_p_wf h Hwf). destruct (head_bare h); tk; reflexivity. Qed.
 Lemma pp_un : forall o x,
   pp (EUn o x) = if un_word o then TSym (un_sym o) :: TSym S_LPAREN :: pp x ++ [TSym S_RPAREN]
                  else TSym (un_sym o) :: pp x.
@@ -726,8 +733,8 @@ Proof.
   - reflexivity.
   - rewrite pp_pathref. destruct m; reflexivity.
   - rewrite pp_partial. cbn [wf] in Hwf. destruct ss as [|[[] n|n|t] ss]; try discriminate; reflexivity.
-  - rewrite pp_pathexpr. cbn [wf] in Hwf. apply andb_prop in Hwf as [Hwf _]. apply andb_prop in Hwf as [Hwf _].
-    apply andb_prop in Hwf as [Hwf _].
+  - cbn [wf] in Hwf. apply andb_prop in Hwf as [Hwf _]. apply andb_prop in Hwf as [Hwf _].
+    apply andb_prop in Hwf as [Hwf _]. rewrite (pp_pathexpr h ss Hwf).
     destruct (head_bare h); [|reflexivity]. rewrite <- app_assoc. apply IHh; assumption.
   - rewrite pp_un. destruct o; reflexivity.
   - rewrite pp_bin. reflexivity.
@@ -774,8 +781,8 @@ Proof.
     + destruct (tsteps_first (s :: ss) k) as (s' & r & E & Hs); [discriminate|]. rewrite E. cbn.
       destruct Hs as [->|[->|[->| ->]]]; reflexivity.
   - rewrite pp_partial. cbn [wf] in Hwf. destruct ss as [|[[] n|n|t] ss]; try discriminate; reflexivity.
-  - rewrite pp_pathexpr. cbn [wf] in Hwf. apply andb_prop in Hwf as [Hwf _]. apply andb_prop in Hwf as [Hwf Hss].
-    apply andb_prop in Hwf as [Hwf _].
+  - cbn [wf] in Hwf. apply andb_prop in Hwf as [Hwf _]. apply andb_prop in Hwf as [Hwf Hss].
+    apply andb_prop in Hwf as [Hwf _]. rewrite (pp_pathexpr h ss Hwf).
     destruct (head_bare h); [|reflexivity]. rewrite <- app_assoc. apply IHh; [assumption|].
     destruct ss as [|s ss]; [discriminate|].
     destruct (tsteps_first (s :: ss) k) as (s' & r & E & Hs); [discriminate|]. rewrite E.
